@@ -28,6 +28,7 @@ struct Out {
     good_total: u32,
     good_ok: u32,
     established_ok: bool,
+    listener_gone: bool,
     accept_failed: u32,
     accepted: u32,
     expected_failures: u32,
@@ -114,6 +115,7 @@ fn stallers(ctx: &mut Ctx) {
     let nstall = if crowd { 100 + ctx.plan(61) as usize } else { 1 + ctx.plan(3) as usize };
     let extra_offs: Vec<usize> = (1..nstall).map(|_| ctx.plan(hb.len() as u64 + if kind == Kind::Req || crowd { 0 } else { 1 }) as usize).collect();
     let extra_modes: Vec<Mode> = (1..nstall).map(|_| if crowd { Mode::Stop } else { MODES[ctx.plan(3) as usize] }).collect();
+    let abort_in_backlog = ctx.plan_bool();
     let accept_error = ctx.idx >= 54 * (hb.len() as u64 + 1) && !ipc && ctx.plan(4) == 0;
     // one disturbed case in 64: 1030..1200 sequential well-behaved clients behind the stallers
     let long_history = ctx.idx >= 54 * (hb.len() as u64 + 1) && !crowd && !matches!(kind, Kind::Req | Kind::Push | Kind::Dealer) && ctx.plan(64) == 1; // (round-robin senders learn of a departure only when a write fails: a thousand departed clients would sit in their rotation and defeat the bounded probe below)
@@ -156,6 +158,15 @@ fn stallers(ctx: &mut Ctx) {
         modes.extend(extra_modes.iter().cloned());
         for (o, m) in offs.iter().zip(modes.iter()) {
             let Ok(mut s) = RawPeer::connect(&ep) else { continue };
+            if abort_in_backlog && *o == 0 && matches!(m, Mode::Close) {
+                // the client aborts (RST) before the accept task has picked the connection up
+                o2.borrow_mut().possible_failures += 1;
+                s.reset();
+                drop(s);
+                rt::count("probe_connection_aborted_in_the_backlog");
+                rt::task::idle().await;
+                continue;
+            }
             let _ = s.send(&hb[..*o]).await;
             match m {
                 Mode::Stop => {
@@ -252,7 +263,7 @@ fn stallers(ctx: &mut Ctx) {
         // an accept() call that fails (the kernel does that: ECONNABORTED, EMFILE) must not end the
         // accept loop: the client after it is still served
         if accept_error {
-            if rt::rt().net.borrow().inject_accept_error(&world::ep_key(&ep), std::io::ErrorKind::ConnectionAborted) {
+            if rt::rt().net.borrow().inject_accept_error(&world::ep_key(&ep), [std::io::ErrorKind::ConnectionAborted, std::io::ErrorKind::Other, std::io::ErrorKind::Interrupted][(idx % 3) as usize]) {
                 rt::count("fault_accept_error");
                 o2.borrow_mut().possible_failures += 1;
                 rt::task::idle().await;
@@ -260,7 +271,12 @@ fn stallers(ctx: &mut Ctx) {
         }
         // a well-behaved client connecting AFTER, and the established peer again
         if !single {
-            let mut g = RawPeer::connect(&ep).expect("connect");
+            let Ok(mut g) = RawPeer::connect(&ep) else {
+                o2.borrow_mut().listener_gone = true;
+                o2.borrow_mut().done = true;
+                world::park().await;
+                return;
+            };
             let _ = g.hello(peer_type, None).await;
             if matches!(kind, Kind::Pub | Kind::Xpub) {
                 let _ = g.send_msg(&[vec![1]]).await;
@@ -306,7 +322,9 @@ fn stallers(ctx: &mut Ctx) {
     }
     ctx.check_panics();
     let o = out.borrow();
-    if o.done {
+    if o.listener_gone {
+        ctx.violation("endpoint_stopped_accepting", format!("{tag}: after the stallers a connection to the bound endpoint is refused: nothing listens there any more, though the socket was neither unbound nor closed"));
+    } else if o.done {
         if o.good_ok != o.good_total {
             ctx.violation("well_behaved_client_blocked", format!("{tag}: {} of {} well-behaved clients completed their handshake and exchanged a message; failing: {}", o.good_ok, o.good_total, o.detail));
         }
